@@ -532,12 +532,19 @@ package transport
 //@   requires t != nil && call != nil && call.done != nil && call.c == nil && call.err == nil && t.opts.DialContext != nil && t.logger != nil && t.ctx != nil
 //@   ghost nDone int = 0
 //@   oncall close: nDone = nDone + 1
+//@   ghost gC quic.Connection = nil
+//@   ghost nCloseConn int = 0
+//@   aftercall DialContext: gC = ret0
+//@   oncall CloseWithError?: nCloseConn = nCloseConn + 1
 //@   dyncall DialContext: modifies nothing
 //@   modifies t.dialingCall, t.c, call.c, call.err
 //@   ensures [C18:waiters-released-on-every-path] nDone == 1
 //@   ensures [C18:late-connection-not-handed-out] old(t.closed) ==> t.c == old(t.c) && call.c == nil && call.err != nil
 //@   ensures t.dialingCall == nil
 //@   callsite close: [C18:the-call-being-waited-for] arg0 == call.done
+//@   ensures [C18:late-connection-closed] old(t.closed) && gC != nil ==> nCloseConn == 1
+//@   ensures [C18:registered-connection-left-open] !old(t.closed) ==> nCloseConn == 0 && t.c == gC
+//@   callsite CloseWithError?: [C18:the-late-connection-itself-is-closed] arg0 == gC && old(t.closed)
 
 // QuicTransport.getConn: a closed transport hands out nothing; a live connection is reused; otherwise exactly one
 // dial is in flight at a time - a caller that finds one waits for it, a caller that finds none starts one (one
